@@ -432,6 +432,9 @@ RefCompare(scn, obs) ==
             THEN {px \o ".BackendSeesSameRequest"} ELSE {})
       \cup (IF ClientCanon(obs.cl) = ClientCanon(obs.ref.cl) THEN {} ELSE {px \o ".ClientSeesSameResponse"})
       \cup (IF obs.ret.panic = obs.ref.ret.panic THEN {} ELSE {px \o ".SamePanic"})
+      \* a full-duplex handler: whatever its two goroutines do to each other's side of the stream, the
+      \* client's response stays one well-formed stream with one end (C03's conjuncts on this RPC itself)
+      \cup (IF scn.hd.duplex /\ C03(scn, obs) # {} THEN {px \o ".DuplexSidesDoNotInterfere"} ELSE {})
       \* (alone or not: the transcoder does not panic unless the handler does)
       \cup (IF obs.ret.panic /\ scn.hd.exit # "panic" THEN {px \o ".NoPanic"} ELSE {})
 
